@@ -35,6 +35,9 @@ def to_scenario(hist, sid, stable):
         if op == "add_column":
             steps.append({"op": "add_column", "h": "main", "name": st["name"], "expr": sql(st["setexpr"]), "setexpr": st["setexpr"]})
             cols.append(st["name"])
+        elif op == "join_column":
+            steps.append({"op": "join_column", "h": "main", "name": st["name"], "src": st["src"]})
+            cols.append(st["name"])
         elif op == "drop_column":
             steps.append({"op": "drop_column", "h": "main", "name": st["name"]})
             cols.remove(st["name"])
@@ -62,10 +65,10 @@ def run(prop, tier, replay):
     if mc["violated"]:
         out.report({"spec": "SchemaEvo", "invariant": mc["violated"]}, f"design violates {mc['violated']}", {})
     hists, _ = vlib.tlc_gen(f"{prop}-gen", "SchemaEvo", CFG.format(steps=steps, inv="GenPrint", props=""), tag="SCN", workers=4, timeout=3000)
-    hists = [h for h in hists if any(s["op"] in ("add_column", "drop_column", "rename_column") for s in h)]
+    hists = [h for h in hists if any(s["op"] in ("add_column", "join_column", "drop_column", "rename_column") for s in h)]
     total = len(hists)
     # histories that drop a column and re-add the same name must be present
-    readd = [h for h in hists if any(a["op"] == "drop_column" and any(b["op"] == "add_column" and b["name"] == a["name"] for b in h[i + 1:])
+    readd = [h for h in hists if any(a["op"] == "drop_column" and any(b["op"] in ("add_column", "join_column") and b["name"] == a["name"] for b in h[i + 1:])
                                      for i, a in enumerate(h))]
     picked = T.sample(hists, 900 if tier == "quick" else 9000, rnd)
     for h in readd[:100]:
@@ -76,8 +79,9 @@ def run(prop, tier, replay):
     return Q.finish(prop, tier, t0, out, mc, reports, scn_file, len(scenarios),
                     {"EvolutionPreservesOthers", "AddedValuesExact", "DroppedDataNeverResurfaces", "FieldIdsUnique",
                      "RowsMatchSchema", "LatestUnreadable", "FailedHasNoEffect"},
-                    ["columns are nullable int32; added columns come from SQL expressions (literal, NULL, col + 1, copy of a column); "
-                     "batch / UDF / key-join variants of add_columns, casts and nullability changes are not covered",
+                    ["columns are nullable int32; added columns come from SQL expressions (literal, NULL, col + 1, copy of a column) or "
+                     "from a key join on id (Dataset::merge; NULL where the join finds no match); batch / UDF variants of "
+                     "add_columns, casts and nullability changes are not covered",
                      "flat schemas only"],
                     {"histories_generated_by_tlc": total, "histories_replayed": len(scenarios), "drop_then_readd_histories": len(readd),
                      "exhaustive": total == len(scenarios), "harness_build_s": build_s,
